@@ -60,3 +60,33 @@ Proof. vm_compute. reflexivity. Qed.
 Lemma bridge_no_narrowing_from_64 :
   forallb (fun g => let '(_, _, from, _, _) := g in from <? 64) gen_narrowing = true.
 Proof. vm_compute. reflexivity. Qed.
+
+(* ---- AUDIT2: the plan translator (translator/effects.py) drops the arm names of union cbor_item_metadata (`metadata.type` whatever
+   the arm), yet `type` sits at offset 8 in bytestring_metadata and at 16 in string / array / map_metadata: an accessor of one item
+   kind reading through the arm of another kind would be translated to the same text.  Each file may only name the arm(s) of the
+   item kind it implements; cbor_decref and the serializer reach the child pointers of maps and tags directly. ---- *)
+Local Open Scope string_scope.
+Definition arms_allowed (file : string) : list string :=
+  if String.eqb file "cbor/arrays.c" then ["array_metadata"]
+  else if String.eqb file "cbor/maps.c" then ["map_metadata"]
+  else if String.eqb file "cbor/bytestrings.c" then ["bytestring_metadata"]
+  else if String.eqb file "cbor/strings.c" then ["string_metadata"]
+  else if String.eqb file "cbor/tags.c" then ["tag_metadata"]
+  else if String.eqb file "cbor/ints.c" then ["int_metadata"]
+  else if String.eqb file "cbor/floats_ctrls.c" then ["float_ctrl_metadata"]
+  else if String.eqb file "cbor/common.c" then ["map_metadata"; "tag_metadata"]
+  else if String.eqb file "cbor/serialization.c" then ["tag_metadata"]
+  else [].
+Definition arm_ok (a : string * string * string) : bool := let '(file, _, arm) := a in mem arm (arms_allowed file).
+Lemma bridge_union_arms : forallb arm_ok gen_union_arms = true.
+Proof. vm_compute. reflexivity. Qed.
+
+(* ---- AUDIT2: the translators see one preprocessor configuration (clang; the cmake definitions; neither NDEBUG nor DEBUG), the
+   compiled library another (gcc; -DNDEBUG or -DDEBUG): a conditional on any macro that differs between the two would be translated
+   from one branch and compiled from the other.  The conditionals of src/ may only test these macros (IS_BIG_ENDIAN and
+   CBOR_PRETTY_PRINTER come from the same configuration.h on both sides; DEBUG only switches CBOR_ASSERT and _cbor_enable_assert;
+   __GNUC__ / _MSC_VER / the HAS_ macros select attribute spellings). ---- *)
+Definition pp_allowed := ["CBOR_PRETTY_PRINTER"; "__cplusplus"; "DEBUG"; "CBOR_HAS_NODISCARD_ATTRIBUTE"; "__GNUC__"; "_MSC_VER";
+                          "CBOR_HAS_BUILTIN_UNREACHABLE"; "IS_BIG_ENDIAN"].
+Lemma bridge_pp_conditionals : forallb (fun m => mem m pp_allowed) gen_pp_macros = true.
+Proof. vm_compute. reflexivity. Qed.
